@@ -14,9 +14,11 @@
 // See the License for the specific language governing permissions and
 // limitations under the License.
 
+use std::cell::RefCell;
 use std::collections::HashMap;
+use std::rc::Weak;
 
-use crate::stack::{Stack, StackObjectRef};
+use crate::stack::{Stack, StackObject, StackObjectRef};
 
 use super::protocol::Version;
 
@@ -37,16 +39,19 @@ pub struct State {
 
     /// Memoization table mapping indices to stack objects
     pub memo: HashMap<usize, StackObjectRef>,
+
+    /// Containers that were modified in place after their creation (APPEND, SETITEM,
+    /// BUILD, ...). Only such a modification can close a reference cycle, and reference
+    /// counting alone never frees a cycle, so `reset` and `Drop` empty these containers.
+    pub mutated: Vec<Weak<RefCell<StackObject>>>,
 }
 
 impl State {
     /// Create a new state with the specified protocol version.
     pub fn new(version: Version) -> Self {
-        Self {
-            version,
-            stack: Stack::new(),
-            ..Default::default()
-        }
+        let mut state = Self::default();
+        state.version = version;
+        state
     }
 
     /// Reset the state for generating a new pickle.
@@ -56,5 +61,31 @@ impl State {
         self.proto_emitted = false;
         self.memo.clear();
         self.stack.reset();
+        self.release_cycles();
+    }
+
+    /// Remember that `target` was modified in place (see `mutated`).
+    pub(crate) fn note_mutated(&mut self, target: Weak<RefCell<StackObject>>) {
+        self.mutated.push(target);
+    }
+
+    /// Empty every container that was modified in place and is still alive, which breaks
+    /// all reference cycles among the objects of this state (self-containing lists etc.).
+    fn release_cycles(&mut self) {
+        for target in std::mem::take(&mut self.mutated) {
+            if let Some(cell) = target.upgrade() {
+                let children = match cell.try_borrow_mut() {
+                    Ok(mut object) => object.detach_children(),
+                    Err(_) => Vec::new(),
+                };
+                drop(children);
+            }
+        }
+    }
+}
+
+impl Drop for State {
+    fn drop(&mut self) {
+        self.release_cycles();
     }
 }
